@@ -54,6 +54,7 @@ type Clause struct {
 	ExtraTypes []string
 	OnlyProps  []string // clause counts only for these properties (ensures[C04] ...)
 	RecvOnly   bool // rule clause: the synthetic function takes only the receiver
+	Assumed    bool // `assumes`: a postcondition callers may rely on that is not proved against the body (listed)
 }
 
 func splitTopCommas(s string) []string {
@@ -599,11 +600,12 @@ func parseBlocks(fset *token.FileSet, path string, src []byte, pkgPath string) (
 				}
 				cl.Index = len(cur.Pre)
 				cur.Pre = append(cur.Pre, cl)
-			case "ensures":
+			case "ensures", "assumes":
 				cl, err := mk(KEnsures, rest, -1)
 				if err != nil {
 					return nil, err
 				}
+				cl.Assumed = word == "assumes"
 				cl.Index = len(cur.Post)
 				cur.Post = append(cur.Post, cl)
 			case "loopinv":
@@ -740,7 +742,7 @@ func parseBlocks(fset *token.FileSet, path string, src []byte, pkgPath string) (
 					}
 				}
 				cur.Flags["has-modifies"] = true
-			case "fresh-arrays", "post-all", "pure", "lemma", "hide-requires", "checked-requires", "trusted", "overflow", "may-diverge", "opaque", "inline", "assume-contract", "sweep", "nosafety":
+			case "fresh-arrays", "post-all", "pure", "lemma", "hide-requires", "checked-requires", "global-invariant", "trusted", "overflow", "may-diverge", "opaque", "inline", "assume-contract", "sweep", "nosafety":
 				cur.Flags[word] = true
 			default:
 				return nil, fmt.Errorf("%s:%d: unknown clause %q", path, line, word)
